@@ -6,8 +6,8 @@ _ENV = {"OMP_WAIT_POLICY": "passive", "KMP_BLOCKTIME": "0"}
 
 
 def stages(tier):
-    n_plain = {"quick": 60, "thorough": 1200}
-    n_omp = {"quick": 24, "thorough": 400}
+    n_plain = {"quick": 240, "thorough": 2400}
+    n_omp = {"quick": 96, "thorough": 800}
     reps_plain = 5 if tier == "quick" else 8
     reps_omp = 3 if tier == "quick" else 6
     st = []
@@ -38,7 +38,7 @@ THRESHOLDS = {
     # fresh processes, same thread count: bit-identical (hash of every output vector)
     "run_to_run_bit_identical": 0.5,
 }
-MIN_NONTRIVIAL = {"quick": 40, "thorough": 400}
+MIN_NONTRIVIAL = {"quick": 100, "thorough": 500}
 _hashes = {}
 
 
